@@ -1,6 +1,8 @@
 package main
 
 import (
+	"runtime/debug"
+	"syscall"
 	"flag"
 	"fmt"
 	"os"
@@ -115,6 +117,20 @@ func (w *world) loadSpecs(verifDir string) error {
 }
 
 func main() {
+	// a runaway query must never take the machine down: the address space of
+	// this process (and of the solvers and replay tests it starts) is capped
+	var lim syscall.Rlimit
+	if err := syscall.Getrlimit(syscall.RLIMIT_AS, &lim); err == nil {
+		const cap = 40 << 30
+		if lim.Cur > cap {
+			lim.Cur = cap
+			syscall.Setrlimit(syscall.RLIMIT_AS, &lim)
+		}
+	}
+	// term construction allocates heavily: collect somewhat less often
+	if os.Getenv("GOGC") == "" {
+		debug.SetGCPercent(200)
+	}
 	if len(os.Args) < 2 {
 		fmt.Fprintln(os.Stderr, "usage: govc verify|check|list ...")
 		os.Exit(2)
